@@ -304,14 +304,14 @@ def handleC15 : List String → Option String
     let ty ← getTy ty
     let v ← getVal v
     if !hasTy v ty then pure "FAIL generator: value not of the type" else
-    if !Spec.Serde.distinguishable v ty then pure "ok" else
+    if !(if mode == "wire" then Spec.Serde.distinguishableW v ty else Spec.Serde.distinguishable v ty) then pure "ok" else
     if res == valText v then pure "ok" else pure ("FAIL " ++ mode ++ " round trip of " ++ valText v ++ " gave " ++ res)
   -- the specification's classification of a value (which guards hold), tied to the harness's own classification
   | ["c15class", ty, v] => some <| run do
     let ty ← getTy ty
     let v ← getVal v
     pure ((if hasTy v ty then "ty" else "noty") ++ (if Spec.Serde.distinguishable v ty then ",dist" else ",nodist") ++
-      (if Spec.Serde.wireSafe v then ",safe" else ",unsafe"))
+      (if Spec.Serde.distinguishableW v ty then ",distw" else ",nodistw"))
   | _ => none
 
 end Edp.Drv
